@@ -691,6 +691,16 @@ func shorthandBlockTypesSet() bool {
 //@   ensures[the-stored-bits] r0 == g.g.Val
 //@   modifies nothing
 
+// ---- C04 / C11: an import or a host lookup resolves a name only to the export registered under exactly
+// that name, and only when it is of the requested kind; otherwise it gets nothing.
+//@ prop C04 C11
+//@ case lookup (m *ModuleInstance) getExport(name string, et ExternType) (*Export, error)
+//@   requires verif_maphas(m.Exports, name) ==> m.Exports[name] != nil
+//@   ensures[found-exactly-an-export-of-that-name-and-kind] (r1 == nil) == (verif_maphas(m.Exports, name) && m.Exports[name].Type == et)
+//@   ensures[the-registered-entry] r1 == nil ==> r0 == m.Exports[name]
+//@   ensures[nothing-on-failure] r1 != nil ==> r0 == nil
+//@   modifies nothing
+
 // ---- C14: a decoded memory is accepted exactly when minimum <= maximum <= limit and the capacity lies
 // between the minimum and the limit.
 //@ prop C14 C03
